@@ -6,12 +6,23 @@ from core import HarnessError
 
 def setup():
     """MANIFEST.setup_cmd: build every binary the quick checks need (offline, from disk)."""
-    for fl, prof in [("asm", "debug"), ("asm", "release"), ("intr", "debug"), ("pure", "debug")]:
+    for fl, prof in [("asm", "debug"), ("asm", "release"), ("intr", "debug"), ("pure", "debug"), ("asm-std", "debug"), ("asm-nostd", "debug")]:
         core.cargo_build(fl, prof)
+    b3sum_bin("asm", "release")
+    b3sum_bin("asm", "debug")
+    b3mon_bin("debug")
+    b3mon_bin("release")
     import cbuild
     for v in ("asm", "int"):
         for san in ("native", "asan"):
             cbuild.build(v, san)
+    cbuild.build_cmt("native")
+    try:
+        core.cargo_build("tsan", "debug", extra_rustflags="-Zsanitizer=thread", toolchain="nightly",
+                         extra_args=["-Zbuild-std", "--target", "x86_64-unknown-linux-gnu"], target_subdir="tsan",
+                         features=["--no-default-features", "--features", "std,pure,miri_rayon"])
+    except core.HarnessError as e:
+        print("setup: TSan build unavailable (checks will record it as inconclusive): %s" % str(e)[-200:])
     # warm the Miri sysroot/target so that quick checks do not pay for it
     env = core.env_base()
     env["RUSTFLAGS"] = "--cfg %s -Ctarget-feature=+sse4.1,+avx2" % core.GUARD
@@ -37,6 +48,31 @@ def c03(ctx):
     ctx.mon("c03/asm-release", "asm", "release", ["c03"])
 
 
+def _seam():
+    return os.path.join(core.VERIF, "cdrv", "tbb_seam.c")
+
+
+def c08(ctx):
+    t = ctx.thorough
+    ctx.mon("c08/asm-debug", "asm", "debug", ["c08", "--scale", "3" if t else "1"], timeout=5400)
+    ctx.mon("c08/asm-release", "asm", "release", ["c08", "--scale", "3" if t else "0.5"], timeout=5400)
+    ctx.mon("c08/intr-debug", "intr", "debug", ["c08", "--scale", "1" if t else "0.3"], timeout=5400)
+    import cbuild
+    tbb_native = cbuild.build("int", "native", extra_defs=["-DBLAKE3_USE_TBB"], extra_srcs=[_seam()], name="cdrv_int_tbb")
+    tbb_asm = cbuild.build("asm", "native", extra_defs=["-DBLAKE3_USE_TBB"], extra_srcs=[_seam()], name="cdrv_asm_tbb")
+    tbb_tsan = cbuild.build("int", "tsan", extra_defs=["-DBLAKE3_USE_TBB"], extra_srcs=[_seam()], name="cdrv_int_tbb_tsan")
+    core.cdrv_run(ctx, "c/update_tbb-int", "int", "native", "api", scale=4.0 if t else 1.0, gen_extra=["--tbb", "1"], exe=tbb_native)
+    core.cdrv_run(ctx, "c/update_tbb-asm", "asm", "native", "api", scale=4.0 if t else 1.0, gen_extra=["--tbb", "1"], exe=tbb_asm)
+    jobs = [
+        lambda: core.cdrv_run(ctx, "c/update_tbb-tsan", "int", "tsan", "api", scale=1.5 if t else 0.3, shards=8, gen_extra=["--tbb", "1"], exe=tbb_tsan,
+                              env_extra={"TSAN_OPTIONS": "halt_on_error=1 exitcode=66"}),
+        lambda: core.tsan_mon(ctx, "rust/tsan", ["c08", "--scale", "1.0" if t else "0.2"]),
+        lambda: core.miri_run(ctx, "rust/miri", ["c08", "--miri-small", "1", "--scale", "0.08" if t else "0.012"], shards=16, flavour="pure-rayon",
+                              miriflags="-Zmiri-tree-borrows -Zmiri-permissive-provenance -Zmiri-ignore-leaks -Zmiri-seed={shard}"),
+    ]
+    ctx.parallel(jobs, workers=3)
+
+
 def c09(ctx):
     ctx.mon("c09/asm-debug", "asm", "debug", ["c09"])
     ctx.mon("c09/asm-release", "asm", "release", ["c09"])
@@ -60,6 +96,69 @@ def kernel_sweeps(ctx, scale):
         ctx.mon("kernels/rust-asm-release", "asm", "release", ["kern", "--scale", str(scale)])
         ctx.mon("kernels/rust-intr-release", "intr", "release", ["kern", "--scale", str(scale * 0.5)])
         ctx.mon("kernels/rust-pure-release", "pure", "release", ["kern", "--scale", str(scale * 0.5)])
+
+
+def c04(ctx):
+    """Battery = the C01/C02/C03/C09 monitors (each compares with specmodel, so the comparison is
+    N-way) executed in every cell of flavour x forced SIMD level x feature set x profile."""
+    t = ctx.thorough
+    sc = "1.0" if t else "0.12"
+    cells = []
+    for fl in ("asm", "intr", "pure"):
+        for p in ("portable", "sse2", "sse41", "avx2", "avx512"):
+            if fl == "pure" and p == "avx512":
+                continue  # no AVX-512 implementation exists in the pure build
+            cells.append((fl, "debug", p, None))
+    for p in ("portable", "sse2", "sse41", "avx2", "avx512"):
+        cells.append(("asm", "release", p, None))
+    if t:
+        for fl in ("intr", "pure"):
+            for p in ("portable", "sse2", "sse41", "avx2", "avx512"):
+                if not (fl == "pure" and p == "avx512"):
+                    cells.append((fl, "release", p, None))
+    # feature sets: default features only (std) and no default features, natural detection + portable
+    for fl in ("asm-std", "asm-nostd") + (("intr-nostd", "pure-nostd") if t else ()):
+        for p in ("native", "portable") + (("sse41",) if t else ()):
+            cells.append((fl, "debug", p, "1"))
+    builds = sorted(set((c[0], c[1]) for c in cells))
+    ctx.parallel([(lambda b=b: core.cargo_build(b[0], b[1])) for b in builds], workers=4)
+    cfgs = {}
+    for fl, prof in builds:
+        cfgs["%s-%s" % (fl, prof)] = core.build_cfgs(fl, prof)
+    ctx.observations["build_script_cfgs"] = cfgs
+
+    def cell(c):
+        fl, prof, p, threads = c
+        for mname in ("c01", "c02", "c03", "c09"):
+            args = [mname, "--platforms", p, "--scale", sc]
+            if threads:
+                args += ["--threads", threads]
+            ctx.mon("cell/%s-%s/%s/%s" % (fl, prof, p, mname), fl, prof, args)
+
+    ctx.parallel([(lambda c=c: cell(c)) for c in cells], workers=6)
+    seen = {}
+    for name, obs in ctx.observations.items():
+        if name.startswith("cell/") and name.endswith("/c01"):
+            items = obs.get("sets", {}).get("platforms", {}).get("items", [])
+            seen[name[5:-4]] = items
+    ctx.observations["platform_reported_per_cell"] = seen
+    # the hook must really have switched the implementation
+    for cellname, items in seen.items():
+        want = cellname.split("/")[-1]
+        if want != "native" and not any(i.lower().replace("_", "") == "%s=%s" % (want, want) for i in items):
+            ctx.note_inconclusive("cell %s: Platform::detect() reported %s under the hook" % (cellname, items))
+    if t:
+        # stock builds without the hook's help: the platform they report must equal the forced one
+        expect = {"no_avx512": "AVX2", "no_avx2": "SSE41", "no_sse41": "SSE2", "no_sse2": "Portable"}
+        stock = [("%s-stock-%s" % (fl, no), fl, no) for fl in ("asm", "intr", "pure") for no in ("no_avx512", "no_avx2", "no_sse41", "no_sse2")]
+        ctx.parallel([(lambda s=s: core.cargo_build(s[0], "debug")) for s in stock], workers=6)
+        for flname, fl, no in stock:
+            for mname in ("c01", "c02", "c03", "c09"):
+                ctx.mon("stock/%s/%s" % (flname, mname), flname, "debug", [mname, "--platforms", "native", "--scale", "0.3"])
+            items = ctx.observations["stock/%s/c01" % flname].get("sets", {}).get("platforms", {}).get("items", [])
+            if "native=%s" % expect[no] not in items:
+                ctx.note_inconclusive("stock build %s reports %s, expected native=%s" % (flname, items, expect[no]))
+            ctx.observations.setdefault("stock_platforms", {})[flname] = items
 
 
 def c05(ctx):
@@ -179,6 +278,38 @@ def c17(ctx):
     ctx.mon("c17/pure-debug", "pure", "debug", ["c17", "--scale", "0.3"])
 
 
+def c18(ctx):
+    t = ctx.thorough
+    import cbuild
+    # Rust: many fresh processes, N threads each, first calls racing on detection
+    nproc = 400 if t else 48
+    sizes = [2, 4, 16, 64]
+    core.cargo_build("asm", "release")
+    core.cargo_build("asm", "debug")
+    jobs = []
+    for k in range(nproc):
+        n = sizes[k % 4]
+        prof = "release" if k % 3 else "debug"
+        jobs.append(lambda k=k, n=n, prof=prof: ctx.mon("rust/proc%d-%dthreads" % (k, n), "asm", prof,
+                                                        ["c18", "--nthreads", str(n), "--proc", str(k), "--per-thread", "6" if n <= 16 else "3"]))
+    ctx.parallel(jobs, workers=4)
+    # C: fresh processes of the threaded executor against libblake3.so (+ writable-segment diff)
+    cmt = cbuild.build_cmt("native")
+    core.cdrv_run(ctx, "c/cmt", "asm", "native", "api", scale=4.0 if t else 1.0, shards=64 if t else 16, exe=cmt,
+                  exe_args=lambda i: [str(sizes[i % 4])])
+    def tsan_rust():
+        for k in range(12 if t else 3):
+            core.tsan_mon(ctx, "rust/tsan-proc%d" % k, ["c18", "--nthreads", str([4, 16, 8][k % 3]), "--proc", str(1000 + k), "--per-thread", "3"])
+    jobs = [
+        tsan_rust,
+        lambda: core.cdrv_run(ctx, "c/cmt-tsan", "int", "tsan", "api", scale=1.0 if t else 0.25, shards=8 if t else 4, exe=cbuild.build_cmt("tsan"),
+                              exe_args=lambda i: [str([4, 16][i % 2])], env_extra={"TSAN_OPTIONS": "halt_on_error=1 exitcode=66"}),
+        lambda: core.miri_run(ctx, "rust/miri", ["c18", "--miri-small", "1", "--nthreads", "3", "--per-thread", "1"], shards=32 if t else 12, flavour="pure",
+                              miriflags="-Zmiri-seed={shard}"),
+    ]
+    ctx.parallel(jobs, workers=3)
+
+
 B3_FEATURES = {"asm": [], "intr": ["--features", "intr"], "pure": ["--features", "pure"]}
 
 
@@ -223,9 +354,11 @@ PROPS = {
     "C01": c01,
     "C02": c02,
     "C03": c03,
+    "C04": c04,
     "C05": c05,
     "C06": c06,
     "C07": c07,
+    "C08": c08,
     "C09": c09,
     "C10": c10,
     "C11": c11,
@@ -235,6 +368,7 @@ PROPS = {
     "C15": c15,
     "C16": c16,
     "C17": c17,
+    "C18": c18,
 }
 
 
